@@ -8,7 +8,7 @@
 * Documentation: https://nyxspace.com/
 */
 
-use crate::{Duration, Epoch};
+use crate::{Duration, Epoch, NANOSECONDS_PER_DAY};
 
 impl Epoch {
     /// Returns a copy of self where the time is set to the provided hours, minutes, seconds
@@ -109,9 +109,17 @@ impl Epoch {
     /// Invalid number of hours, minutes, and seconds will overflow into their higher unit.
     /// Warning: this will set the subdivisions of seconds to zero.
     pub fn with_hms_strict(&self, hours: u64, minutes: u64, seconds: u64) -> Self {
-        let (sign, days, _, _, _, _, _, _) = self.duration.decompose();
+        // The time of day is counted from the midnight that starts the calendar day of this epoch in its
+        // own time scale: that is not a whole number of days of the duration for the time scales whose
+        // reference epoch is at noon (ET, TDB), and the whole days of a negative duration (an epoch before
+        // the reference epoch) must be rounded down, not toward zero.
+        let calendar_offset = self.time_scale.gregorian_epoch_offset();
+        let (centuries, nanoseconds) = (self.duration + calendar_offset).to_parts();
+        let since_midnight = nanoseconds % NANOSECONDS_PER_DAY;
+        let midnight =
+            Duration::from_parts(centuries, nanoseconds - since_midnight) - calendar_offset;
         Self::from_duration(
-            Duration::compose(sign, days, hours, minutes, seconds, 0, 0, 0),
+            midnight + Duration::compose(0, 0, hours, minutes, seconds, 0, 0, 0),
             self.time_scale,
         )
     }
